@@ -1,2 +1,643 @@
+(* C35 — lemmas about Model.v.  Theorem statements live in Properties.v. *)
+From Coq Require Import Lia.
 From GixV.Base Require Import Bytes BytesFacts Outcome.
 From GixV.C35 Require Import Model.
+
+(* ---- vocabulary of the statements ------------------------------------------------------ *)
+
+Definition kv := (bytes * bytes)%type.
+
+(* the text of one attribute line, without its terminator *)
+Definition line (p : kv) : bytes := fst p ++ EQS :: snd p.
+
+(* a value that may be sent: no NUL, no LF, no CR *)
+Definition clean (v : bytes) : bool := negb (has_byte NUL v || has_byte LF v || has_byte CR v).
+
+(* keys as write_to uses them: no NUL/LF/CR/'=' and UTF-8 *)
+Definition key_ok (k : bytes) : bool :=
+  negb (has_byte NUL k || has_byte LF k || has_byte CR k || has_byte EQS k) && utf8_valid k.
+
+(* the (key, value) pairs of the fields that are Some, in the order write_to visits them *)
+Fixpoint pres (fs : list (bytes * option bytes)) : list kv :=
+  match fs with
+  | [] => []
+  | (_, None) :: r => pres r
+  | (k, Some v) :: r => (k, v) :: pres r
+  end.
+Definition present (c : ctx) : list kv := pres (write_fields c).
+
+Fixpoint encode (kvs : list kv) : bytes :=
+  match kvs with
+  | [] => []
+  | p :: r => write_key (fst p) (snd p) ++ encode r
+  end.
+
+(* longest prefix of pairs with clean values, and the first offending pair if any *)
+Fixpoint clean_prefix (kvs : list kv) : list kv * option kv :=
+  match kvs with
+  | [] => ([], None)
+  | p :: r =>
+      if clean (snd p) then let '(a, b) := clean_prefix r in (p :: a, b) else ([], Some p)
+  end.
+
+Definition clear_quit (c : ctx) : ctx :=
+  mk_ctx (c_protocol c) (c_host c) (c_path c) (c_username c) (c_password c) (c_url c) None.
+
+(* a reader that cuts its input at every byte satisfying [sep] (the last piece is what follows
+   the last separator) *)
+Fixpoint split_on (sep : byte -> bool) (l : bytes) : list bytes :=
+  match l with
+  | [] => [[]]
+  | b :: r =>
+      if sep b then [] :: split_on sep r
+      else match split_on sep r with
+           | [] => [[b]]
+           | p :: ps => (b :: p) :: ps
+           end
+  end.
+Definition is_lf (b : byte) : bool := beqb b LF.
+Definition is_cr_or_lf (b : byte) : bool := beqb b LF || beqb b CR.
+
+(* ---- has_byte -------------------------------------------------------------------------- *)
+
+Lemma has_byte_app b x y : has_byte b (x ++ y) = has_byte b x || has_byte b y.
+Proof. unfold has_byte. apply existsb_app. Qed.
+
+Lemma has_byte_cons b x l : has_byte b (x :: l) = beqb b x || has_byte b l.
+Proof. reflexivity. Qed.
+
+Lemma has_byte_false_in b l : has_byte b l = false -> ~ In b l.
+Proof.
+  intros H Hin. unfold has_byte in H.
+  assert (existsb (beqb b) l = true) as E.
+  { apply existsb_exists. exists b. split; [exact Hin | apply beqb_eq; reflexivity]. }
+  congruence.
+Qed.
+
+Lemma beqb_sym a b : beqb a b = beqb b a.
+Proof.
+  destruct (beqb a b) eqn:E1, (beqb b a) eqn:E2; try reflexivity.
+  - apply beqb_eq in E1. subst. assert (beqb b b = true) by (apply beqb_eq; reflexivity). congruence.
+  - apply beqb_eq in E2. subst. assert (beqb a a = true) by (apply beqb_eq; reflexivity). congruence.
+Qed.
+
+Lemma clean_parts v : clean v = true ->
+  has_byte NUL v = false /\ has_byte LF v = false /\ has_byte CR v = false.
+Proof.
+  unfold clean. intros H. apply Bool.negb_true_iff in H.
+  apply Bool.orb_false_iff in H. destruct H as [H H3].
+  apply Bool.orb_false_iff in H. destruct H as [H1 H2]. auto.
+Qed.
+
+Lemma key_ok_parts k : key_ok k = true ->
+  has_byte NUL k = false /\ has_byte LF k = false /\ has_byte CR k = false /\
+  has_byte EQS k = false /\ utf8_valid k = true.
+Proof.
+  unfold key_ok. intros H. apply Bool.andb_true_iff in H. destruct H as [H Hu].
+  apply Bool.negb_true_iff in H.
+  apply Bool.orb_false_iff in H. destruct H as [H H4].
+  apply Bool.orb_false_iff in H. destruct H as [H H3].
+  apply Bool.orb_false_iff in H. destruct H as [H1 H2]. auto.
+Qed.
+
+Lemma validate_clean k v : key_ok k = true -> validate k v = clean v.
+Proof.
+  intros Hk. apply key_ok_parts in Hk. destruct Hk as (H1 & H2 & _).
+  unfold validate, clean. rewrite H1, H2. reflexivity.
+Qed.
+
+(* ---- write_to -------------------------------------------------------------------------- *)
+
+Lemma write_loop_spec fs : forall out,
+  Forall (fun f => key_ok (fst f) = true) fs ->
+  write_loop fs out =
+    (out ++ encode (fst (clean_prefix (pres fs))),
+     match snd (clean_prefix (pres fs)) with None => Ok tt | Some _ => Err Encoding end).
+Proof.
+  induction fs as [|[k [v|]] fs IH]; intros out HF.
+  - cbn. rewrite app_nil_r. reflexivity.
+  - inversion HF as [|? ? Hk HF']; subst. cbn [fst] in Hk.
+    cbn [write_loop pres clean_prefix snd fst]. rewrite (validate_clean k v Hk).
+    destruct (clean v) eqn:Ec.
+    + rewrite (IH _ HF'). destruct (clean_prefix (pres fs)) as [a b].
+      cbn [fst snd encode]. rewrite <- app_assoc. reflexivity.
+    + cbn [fst snd encode]. rewrite app_nil_r. reflexivity.
+  - inversion HF as [|? ? Hk HF']; subst. cbn [write_loop pres]. apply IH. exact HF'.
+Qed.
+
+Lemma write_fields_keys_ok c : Forall (fun f => key_ok (fst f) = true) (write_fields c).
+Proof. unfold write_fields. repeat constructor. Qed.
+
+Lemma write_to_spec c :
+  write_to c =
+    (encode (fst (clean_prefix (present c))),
+     match snd (clean_prefix (present c)) with None => Ok tt | Some _ => Err Encoding end).
+Proof. unfold write_to, present. rewrite write_loop_spec by apply write_fields_keys_ok. reflexivity. Qed.
+
+Lemma clean_prefix_all kvs : forallb (fun p => clean (snd p)) kvs = true ->
+  clean_prefix kvs = (kvs, None).
+Proof.
+  induction kvs as [|p r IH]; cbn [forallb clean_prefix]; [reflexivity|].
+  intros H. apply Bool.andb_true_iff in H. destruct H as [H1 H2].
+  rewrite H1, (IH H2). reflexivity.
+Qed.
+
+(* structure of clean_prefix: kvs = pre ++ rest, pre all clean, rest starts with the offender *)
+Lemma clean_prefix_split kvs :
+  let '(pre, bad) := clean_prefix kvs in
+  forallb (fun p => clean (snd p)) pre = true /\
+  match bad with
+  | None => kvs = pre
+  | Some p => clean (snd p) = false /\ exists post, kvs = pre ++ p :: post
+  end.
+Proof.
+  induction kvs as [|p r IH]; cbn [clean_prefix].
+  - split; reflexivity.
+  - destruct (clean (snd p)) eqn:Ec.
+    + destruct (clean_prefix r) as [a b]. destruct IH as [IH1 IH2]. split.
+      * cbn [forallb]. rewrite Ec, IH1. reflexivity.
+      * destruct b as [q|].
+        -- destruct IH2 as [Hq [post ->]]. split; [exact Hq|]. exists post. reflexivity.
+        -- rewrite IH2. reflexivity.
+    + split; [reflexivity|]. split; [exact Ec|]. exists r. reflexivity.
+Qed.
+
+Lemma L_write_ok_iff c out :
+  write_to c = (out, Ok tt) <->
+  (forallb (fun p => clean (snd p)) (present c) = true /\ out = encode (present c)).
+Proof.
+  rewrite write_to_spec. pose proof (clean_prefix_split (present c)) as S.
+  destruct (clean_prefix (present c)) as [pre bad]. destruct S as [S1 S2]. cbn [fst snd]. split.
+  - intros H. destruct bad as [q|]; [inversion H|]. inversion H. subst. split; [exact S1 | reflexivity].
+  - intros [Hc ->]. destruct bad as [q|].
+    + destruct S2 as [Hq [post E]]. rewrite E in Hc. rewrite forallb_app in Hc.
+      apply Bool.andb_true_iff in Hc. destruct Hc as [_ Hc]. cbn [forallb] in Hc.
+      rewrite Hq in Hc. discriminate.
+    + subst. reflexivity.
+Qed.
+
+Lemma L_write_err c out e :
+  write_to c = (out, Err e) ->
+  e = Encoding /\
+  exists pre k v post, present c = pre ++ (k, v) :: post /\
+    forallb (fun p => clean (snd p)) pre = true /\ clean v = false /\ out = encode pre.
+Proof.
+  rewrite write_to_spec. pose proof (clean_prefix_split (present c)) as S.
+  destruct (clean_prefix (present c)) as [pre bad]. destruct S as [S1 S2]. cbn [fst snd].
+  intros H. destruct bad as [[k v]|]; [|inversion H]. inversion H. subst. split; [reflexivity|].
+  destruct S2 as [Hq [post E]]. exists pre, k, v, post. cbn [snd] in Hq. auto.
+Qed.
+
+Lemma L_write_total c : exists out r, write_to c = (out, r) /\ r <> Panic /\ r <> OutOfFuel.
+Proof.
+  rewrite write_to_spec. eexists. eexists. split; [reflexivity|].
+  destruct (snd (clean_prefix (present c))); split; discriminate.
+Qed.
+
+(* ---- lines() of what write_to emits ---------------------------------------------------- *)
+
+Lemma lwt_line ln rest : has_byte LF ln = false ->
+  lines_with_terminator (ln ++ LF :: rest) = (ln ++ [LF]) :: lines_with_terminator rest.
+Proof.
+  induction ln as [|b ln IH]; intros H.
+  - reflexivity.
+  - rewrite has_byte_cons in H. apply Bool.orb_false_iff in H. destruct H as [Hb Hl].
+    cbn [app lines_with_terminator]. rewrite beqb_sym, Hb. rewrite (IH Hl). reflexivity.
+Qed.
+
+Lemma trim_line ln : has_byte CR ln = false -> trim_last_terminator (ln ++ [LF]) = ln.
+Proof.
+  intros H. unfold trim_last_terminator. rewrite rev_app_distr. cbn [rev app].
+  replace (beqb LF LF) with true by reflexivity.
+  destruct (rev ln) as [|c r'] eqn:E.
+  - apply (f_equal (@rev byte)) in E. rewrite rev_involutive in E. cbn in E. symmetry. exact E.
+  - destruct (beqb c CR) eqn:Ec.
+    + exfalso. apply beqb_eq in Ec. subst c. apply (has_byte_false_in _ _ H).
+      apply in_rev. rewrite E. left. reflexivity.
+    + rewrite <- E. apply rev_involutive.
+Qed.
+
+Definition pair_ok (p : kv) : bool := key_ok (fst p) && clean (snd p).
+
+Lemma line_no_lf_cr p : pair_ok p = true ->
+  has_byte LF (line p) = false /\ has_byte CR (line p) = false /\ has_byte NUL (line p) = false.
+Proof.
+  unfold pair_ok. intros H. apply Bool.andb_true_iff in H. destruct H as [Hk Hv].
+  apply key_ok_parts in Hk. destruct Hk as (K1 & K2 & K3 & _).
+  apply clean_parts in Hv. destruct Hv as (V1 & V2 & V3).
+  unfold line. rewrite !has_byte_app, !has_byte_cons, K1, K2, K3, V1, V2, V3. repeat split.
+Qed.
+
+Lemma encode_cons p r : encode (p :: r) = line p ++ LF :: encode r.
+Proof. cbn [encode]. unfold write_key, line. rewrite <- !app_assoc. cbn [app]. rewrite <- app_assoc. reflexivity. Qed.
+
+Lemma lines_encode kvs : forallb pair_ok kvs = true -> lines (encode kvs) = map line kvs.
+Proof.
+  induction kvs as [|p r IH]; intros H; [reflexivity|].
+  cbn [forallb] in H. apply Bool.andb_true_iff in H. destruct H as [Hp Hr].
+  destruct (line_no_lf_cr p Hp) as (L1 & L2 & _).
+  rewrite encode_cons. unfold lines in *. rewrite (lwt_line _ _ L1).
+  cbn [map]. rewrite (trim_line _ L2), (IH Hr). reflexivity.
+Qed.
+
+Lemma line_nonempty p : line p <> [].
+Proof. unfold line. destruct (fst p); discriminate. Qed.
+
+Lemma take_while_lines kvs : take_while_nonempty (map line kvs) = map line kvs.
+Proof.
+  induction kvs as [|p r IH]; [reflexivity|]. cbn [map take_while_nonempty].
+  destruct (line p) eqn:E; [exfalso; exact (line_nonempty p E)|]. rewrite IH. reflexivity.
+Qed.
+
+Lemma splitn2_line k v : has_byte EQS k = false -> splitn2_eq (k ++ EQS :: v) = (k, Some v).
+Proof.
+  induction k as [|b k IH]; intros H.
+  - reflexivity.
+  - rewrite has_byte_cons in H. apply Bool.orb_false_iff in H. destruct H as [Hb Hk].
+    cbn [app splitn2_eq]. rewrite beqb_sym, Hb, (IH Hk). reflexivity.
+Qed.
+
+Lemma parse_line_line p : pair_ok p = true -> parse_line (line p) = Ok p.
+Proof.
+  destruct p as [k v]. unfold pair_ok. cbn [fst snd]. intros H.
+  apply Bool.andb_true_iff in H. destruct H as [Hk Hv].
+  pose proof (key_ok_parts k Hk) as (_ & _ & _ & K4 & K5).
+  unfold parse_line, line. cbn [fst snd]. rewrite (splitn2_line k v K4), K5.
+  rewrite (validate_clean k v Hk), Hv. reflexivity.
+Qed.
+
+(* ---- from_bytes of what write_to emits -------------------------------------------------- *)
+
+Fixpoint apply_kvs (kvs : list kv) (c : ctx) : outcome ctx err :=
+  match kvs with
+  | [] => Ok c
+  | (k, v) :: r =>
+      match apply_kv c k v with
+      | Ok c' => apply_kvs r c'
+      | Err e => Err e
+      | Panic => Panic
+      | OutOfFuel => OutOfFuel
+      end
+  end.
+
+Lemma from_lines_lines kvs : forall c, forallb pair_ok kvs = true ->
+  from_lines (map line kvs) c = apply_kvs kvs c.
+Proof.
+  induction kvs as [|[k v] r IH]; intros c H; [reflexivity|].
+  cbn [forallb] in H. apply Bool.andb_true_iff in H. destruct H as [Hp Hr].
+  cbn [map from_lines apply_kvs]. rewrite (parse_line_line _ Hp).
+  destruct (apply_kv c k v); try reflexivity. apply IH. exact Hr.
+Qed.
+
+Lemma from_bytes_encode kvs : forallb pair_ok kvs = true ->
+  from_bytes (encode kvs) = apply_kvs kvs ctx_default.
+Proof.
+  intros H. unfold from_bytes. rewrite (lines_encode _ H), take_while_lines.
+  apply from_lines_lines. exact H.
+Qed.
+
+Lemma pres_keys_ok fs : Forall (fun f => key_ok (fst f) = true) fs ->
+  forallb (fun p => clean (snd p)) (pres fs) = true -> forallb pair_ok (pres fs) = true.
+Proof.
+  induction fs as [|[k [v|]] fs IH]; intros HF H; [reflexivity| |].
+  - inversion HF as [|? ? Hk HF']; subst. cbn [pres forallb] in *.
+    apply Bool.andb_true_iff in H. destruct H as [H1 H2].
+    unfold pair_ok at 1. cbn [fst snd] in *. rewrite Hk, H1, (IH HF' H2). reflexivity.
+  - inversion HF as [|? ? Hk HF']; subst. cbn [pres]. apply IH; assumption.
+Qed.
+
+Lemma present_pairs_ok c : forallb (fun p => clean (snd p)) (present c) = true ->
+  forallb pair_ok (present c) = true.
+Proof. apply pres_keys_ok, write_fields_keys_ok. Qed.
+
+Lemma apply_kv_url c v : apply_kv c (bs "url") v =
+  Ok (mk_ctx (c_protocol c) (c_host c) (c_path c) (c_username c) (c_password c) (Some v) (c_quit c)).
+Proof. reflexivity. Qed.
+Lemma apply_kv_path c v : apply_kv c (bs "path") v =
+  Ok (mk_ctx (c_protocol c) (c_host c) (Some v) (c_username c) (c_password c) (c_url c) (c_quit c)).
+Proof. reflexivity. Qed.
+Lemma apply_kv_protocol c v : apply_kv c (bs "protocol") v =
+  if utf8_valid v then
+    Ok (mk_ctx (Some v) (c_host c) (c_path c) (c_username c) (c_password c) (c_url c) (c_quit c))
+  else Err IllformedUtf8.
+Proof. reflexivity. Qed.
+Lemma apply_kv_host c v : apply_kv c (bs "host") v =
+  if utf8_valid v then
+    Ok (mk_ctx (c_protocol c) (Some v) (c_path c) (c_username c) (c_password c) (c_url c) (c_quit c))
+  else Err IllformedUtf8.
+Proof. reflexivity. Qed.
+Lemma apply_kv_username c v : apply_kv c (bs "username") v =
+  if utf8_valid v then
+    Ok (mk_ctx (c_protocol c) (c_host c) (c_path c) (Some v) (c_password c) (c_url c) (c_quit c))
+  else Err IllformedUtf8.
+Proof. reflexivity. Qed.
+Lemma apply_kv_password c v : apply_kv c (bs "password") v =
+  if utf8_valid v then
+    Ok (mk_ctx (c_protocol c) (c_host c) (c_path c) (c_username c) (Some v) (c_url c) (c_quit c))
+  else Err IllformedUtf8.
+Proof. reflexivity. Qed.
+
+(* applying the present fields of c to the default context rebuilds c (without quit) *)
+Lemma apply_present c : strings_utf8 c = true ->
+  apply_kvs (present c) ctx_default = Ok (clear_quit c).
+Proof.
+  destruct c as [p h pa u pw url q]. unfold strings_utf8, clear_quit.
+  cbn [c_protocol c_host c_username c_password c_path c_url].
+  intros H. apply Bool.andb_true_iff in H. destruct H as [H H4].
+  apply Bool.andb_true_iff in H. destruct H as [H H3].
+  apply Bool.andb_true_iff in H. destruct H as [H1 H2].
+  destruct p as [p|], h as [h|], pa as [pa|], u as [u|], pw as [pw|], url as [url|];
+    cbn [opt_utf8] in *; unfold present, write_fields;
+    cbn [pres c_protocol c_host c_username c_password c_path c_url apply_kvs];
+    repeat (first [ rewrite apply_kv_url | rewrite apply_kv_path
+                  | rewrite apply_kv_protocol, H1 | rewrite apply_kv_host, H2
+                  | rewrite apply_kv_username, H3 | rewrite apply_kv_password, H4 ];
+            cbv beta iota);
+    reflexivity.
+Qed.
+
+Lemma L_round_trip c out : strings_utf8 c = true ->
+  write_to c = (out, Ok tt) -> from_bytes out = Ok (clear_quit c).
+Proof.
+  intros Hu H. apply L_write_ok_iff in H. destruct H as [Hc ->].
+  rewrite (from_bytes_encode _ (present_pairs_ok c Hc)). apply apply_present. exact Hu.
+Qed.
+
+(* ---- what any line-oriented reader sees -------------------------------------------------- *)
+
+(* a separator predicate that cuts at LF and possibly at CR, but nowhere else *)
+Definition sep_ok (sep : byte -> bool) : Prop :=
+  sep LF = true /\ forall b, sep b = true -> b = LF \/ b = CR.
+
+Lemma no_sep_in_line sep p : sep_ok sep -> pair_ok p = true -> existsb sep (line p) = false.
+Proof.
+  intros [_ Hs] Hp. destruct (line_no_lf_cr p Hp) as (L1 & L2 & _).
+  destruct (existsb sep (line p)) eqn:E; [|reflexivity]. exfalso.
+  apply existsb_exists in E. destruct E as [x [Hin Hx]].
+  destruct (Hs x Hx) as [-> | ->].
+  - exact (has_byte_false_in _ _ L1 Hin).
+  - exact (has_byte_false_in _ _ L2 Hin).
+Qed.
+
+Lemma split_on_line sep ln rest : sep LF = true -> existsb sep ln = false ->
+  split_on sep (ln ++ LF :: rest) = ln :: split_on sep rest.
+Proof.
+  intros HL. induction ln as [|b ln IH]; intros H.
+  - cbn [app split_on]. rewrite HL. reflexivity.
+  - cbn [existsb] in H. apply Bool.orb_false_iff in H. destruct H as [Hb Hl].
+    cbn [app split_on]. rewrite Hb, (IH Hl). reflexivity.
+Qed.
+
+Lemma split_on_encode sep kvs : sep_ok sep -> forallb pair_ok kvs = true ->
+  split_on sep (encode kvs) = map line kvs ++ [[]].
+Proof.
+  intros Hs. induction kvs as [|p r IH]; intros H; [reflexivity|].
+  cbn [forallb] in H. apply Bool.andb_true_iff in H. destruct H as [Hp Hr].
+  rewrite encode_cons, (split_on_line sep _ _ (proj1 Hs) (no_sep_in_line sep p Hs Hp)), (IH Hr).
+  reflexivity.
+Qed.
+
+Lemma filter_none {A} (f : A -> bool) l : existsb f l = false -> filter f l = [].
+Proof.
+  induction l as [|x l IH]; [reflexivity|]. cbn [existsb filter]. intros H.
+  apply Bool.orb_false_iff in H. destruct H as [Hx Hl]. rewrite Hx. exact (IH Hl).
+Qed.
+
+Lemma filter_encode sep kvs : sep_ok sep -> forallb pair_ok kvs = true ->
+  length (filter sep (encode kvs)) = length kvs.
+Proof.
+  intros Hs. induction kvs as [|p r IH]; intros H; [reflexivity|].
+  cbn [forallb] in H. apply Bool.andb_true_iff in H. destruct H as [Hp Hr].
+  rewrite encode_cons, filter_app, (filter_none _ _ (no_sep_in_line sep p Hs Hp)).
+  cbn [app filter]. rewrite (proj1 Hs). cbn [length]. rewrite (IH Hr). reflexivity.
+Qed.
+
+Lemma is_lf_ok : sep_ok is_lf.
+Proof. split; [reflexivity|]. intros b H. left. apply beqb_eq in H. exact H. Qed.
+Lemma is_cr_or_lf_ok : sep_ok is_cr_or_lf.
+Proof.
+  split; [reflexivity|]. intros b H. unfold is_cr_or_lf in H. apply Bool.orb_true_iff in H.
+  destruct H as [H|H]; apply beqb_eq in H; auto.
+Qed.
+
+Lemma splitn2_pair p : pair_ok p = true -> splitn2_eq (line p) = (fst p, Some (snd p)).
+Proof.
+  unfold pair_ok. intros H. apply Bool.andb_true_iff in H. destruct H as [Hk _].
+  apply key_ok_parts in Hk. destruct Hk as (_ & _ & _ & K4 & _). apply splitn2_line. exact K4.
+Qed.
+
+Lemma forallb_pair_ok_app a b : forallb pair_ok (a ++ b) = true -> forallb pair_ok a = true.
+Proof. rewrite forallb_app. intros H. apply Bool.andb_true_iff in H. tauto. Qed.
+
+(* the pairs of a prefix of `present c` with clean values are pair_ok *)
+Lemma present_prefix_ok c pre post : present c = pre ++ post ->
+  forallb (fun p => clean (snd p)) pre = true -> forallb pair_ok pre = true.
+Proof.
+  intros E Hc.
+  assert (K : forallb (fun p : kv => key_ok (fst p)) (present c) = true).
+  { destruct c as [p h pa u pw url q]. 
+    destruct p, h, pa, u, pw, url; reflexivity. }
+  rewrite E, forallb_app in K. apply Bool.andb_true_iff in K. destruct K as [K _].
+  clear E. induction pre as [|x pre IH]; [reflexivity|].
+  cbn [forallb] in *. apply Bool.andb_true_iff in K. destruct K as [K1 K2].
+  apply Bool.andb_true_iff in Hc. destruct Hc as [C1 C2].
+  unfold pair_ok at 1. rewrite K1, C1, (IH C2 K2). reflexivity.
+Qed.
+
+Lemma L_no_injection c out r : write_to c = (out, r) ->
+  exists sent post,
+    present c = sent ++ post /\ (r = Ok tt -> post = []) /\
+    out = encode sent /\
+    forallb (fun p => clean (snd p)) sent = true /\
+    (forall sep, sep_ok sep -> split_on sep out = map line sent ++ [[]]) /\
+    (forall sep, sep_ok sep -> length (filter sep out) = length sent) /\
+    Forall (fun p => splitn2_eq (line p) = (fst p, Some (snd p))) sent.
+Proof.
+  rewrite write_to_spec. pose proof (clean_prefix_split (present c)) as S.
+  destruct (clean_prefix (present c)) as [pre bad]. destruct S as [S1 S2]. cbn [fst snd].
+  intros H. injection H as Ho Hr. subst out r.
+  assert (exists post, present c = pre ++ post /\
+            (match bad with None => Ok tt | Some _ => @Err unit err Encoding end = Ok tt -> post = []))
+    as [post [E Hpost]].
+  { destruct bad as [q|].
+    - destruct S2 as [_ [post E]]. exists (q :: post). split; [exact E|]. intros Hq. discriminate.
+    - exists []. rewrite app_nil_r. split; [exact S2 | reflexivity]. }
+  pose proof (present_prefix_ok c pre post E S1) as Hok.
+  exists pre, post. split; [exact E|]. split; [exact Hpost|]. split; [reflexivity|].
+  split; [exact S1|]. split; [|split].
+  - intros sep Hs. apply split_on_encode; assumption.
+  - intros sep Hs. apply filter_encode; assumption.
+  - apply Forall_forall. intros p Hin. apply splitn2_pair.
+    rewrite forallb_forall in Hok. apply Hok. exact Hin.
+Qed.
+
+(* a value with NUL, LF or CR is refused, and neither it nor anything after it is sent *)
+Lemma L_refuses c k v : In (k, v) (present c) -> clean v = false ->
+  exists pre post, write_to c = (encode pre, Err Encoding) /\ present c = pre ++ post /\
+    forallb (fun p => clean (snd p)) pre = true /\ ~ In (k, v) pre.
+Proof.
+  intros Hin Hv. destruct (write_to c) as [out r] eqn:E.
+  destruct r as [[]|e| |].
+  - apply L_write_ok_iff in E. destruct E as [Hc _]. rewrite forallb_forall in Hc.
+    specialize (Hc _ Hin). cbn [snd] in Hc. congruence.
+  - apply L_write_err in E. destruct E as [-> (pre & k' & v' & post & E1 & E2 & E3 & ->)].
+    exists pre, ((k', v') :: post). repeat split; try assumption.
+    intros Hpre. rewrite forallb_forall in E2. specialize (E2 _ Hpre). cbn [snd] in E2. congruence.
+  - exfalso. destruct (L_write_total c) as (o & r & E' & Hp & _). rewrite E in E'. inversion E'. congruence.
+  - exfalso. destruct (L_write_total c) as (o & r & E' & _ & Hf). rewrite E in E'. inversion E'. congruence.
+Qed.
+
+Definition opt_pair (k : bytes) (o : option bytes) : list kv :=
+  match o with Some v => [(k, v)] | None => [] end.
+
+Lemma L_present_fields c :
+  present c = opt_pair (bs "url") (c_url c) ++ opt_pair (bs "path") (c_path c)
+           ++ opt_pair (bs "protocol") (c_protocol c) ++ opt_pair (bs "host") (c_host c)
+           ++ opt_pair (bs "username") (c_username c) ++ opt_pair (bs "password") (c_password c).
+Proof. destruct c as [p h pa u pw url q]. destruct p, h, pa, u, pw, url; reflexivity. Qed.
+
+(* ---- from_bytes: totality and what it lets through ----------------------------------------- *)
+
+Lemma parse_line_total l : parse_line l <> Panic /\ parse_line l <> OutOfFuel.
+Proof.
+  unfold parse_line. destruct (splitn2_eq l) as [k ov].
+  destruct (utf8_valid k), ov as [v|]; try (split; discriminate).
+  destruct (validate k v); split; discriminate.
+Qed.
+
+Lemma apply_kv_total c k v : apply_kv c k v <> Panic /\ apply_kv c k v <> OutOfFuel.
+Proof.
+  unfold apply_kv.
+  repeat match goal with |- context [if ?b then _ else _] => destruct b end; split; discriminate.
+Qed.
+
+Lemma from_lines_total ls : forall c, from_lines ls c <> Panic /\ from_lines ls c <> OutOfFuel.
+Proof.
+  induction ls as [|l r IH]; intros c; cbn [from_lines]; [split; discriminate|].
+  pose proof (parse_line_total l) as [P1 P2].
+  destruct (parse_line l) as [[k v]|e| |]; try (split; discriminate); try congruence.
+  pose proof (apply_kv_total c k v) as [A1 A2].
+  destruct (apply_kv c k v) as [c'|e| |]; try (split; discriminate); try congruence.
+  apply IH.
+Qed.
+
+Lemma L_from_bytes_total input : from_bytes input <> Panic /\ from_bytes input <> OutOfFuel.
+Proof. apply from_lines_total. Qed.
+
+Definition opt_clean (o : option bytes) : bool := match o with None => true | Some v => clean v end.
+Definition ctx_clean (c : ctx) : bool :=
+  opt_clean (c_protocol c) && opt_clean (c_host c) && opt_clean (c_path c)
+  && opt_clean (c_username c) && opt_clean (c_password c) && opt_clean (c_url c).
+Definition inv (c : ctx) : bool := ctx_clean c && strings_utf8 c.
+
+Lemma validate_value_clean k v : validate k v = true -> clean v = true.
+Proof.
+  unfold validate, clean. intros H. apply Bool.negb_true_iff in H.
+  apply Bool.orb_false_iff in H. destruct H as [H H5].
+  apply Bool.orb_false_iff in H. destruct H as [H H4].
+  apply Bool.orb_false_iff in H. destruct H as [H H3].
+  rewrite H3, H4, H5. reflexivity.
+Qed.
+
+Lemma parse_line_validate l k v : parse_line l = Ok (k, v) -> validate k v = true.
+Proof.
+  unfold parse_line. destruct (splitn2_eq l) as [k0 ov].
+  destruct (utf8_valid k0), ov as [v0|]; try discriminate.
+  destruct (validate k0 v0) eqn:E; [|discriminate]. intros H. inversion H. subst. exact E.
+Qed.
+
+Lemma inv_parts c : inv c = true ->
+  opt_clean (c_protocol c) = true /\ opt_clean (c_host c) = true /\ opt_clean (c_path c) = true /\
+  opt_clean (c_username c) = true /\ opt_clean (c_password c) = true /\ opt_clean (c_url c) = true /\
+  opt_utf8 (c_protocol c) = true /\ opt_utf8 (c_host c) = true /\
+  opt_utf8 (c_username c) = true /\ opt_utf8 (c_password c) = true.
+Proof.
+  unfold inv, ctx_clean, strings_utf8. intros H.
+  repeat match goal with H : _ && _ = true |- _ => apply Bool.andb_true_iff in H; destruct H end.
+  repeat split; assumption.
+Qed.
+
+Lemma inv_build p h pa u pw url q :
+  opt_clean p = true -> opt_clean h = true -> opt_clean pa = true ->
+  opt_clean u = true -> opt_clean pw = true -> opt_clean url = true ->
+  opt_utf8 p = true -> opt_utf8 h = true -> opt_utf8 u = true -> opt_utf8 pw = true ->
+  inv (mk_ctx p h pa u pw url q) = true.
+Proof.
+  intros. unfold inv, ctx_clean, strings_utf8. cbn [c_protocol c_host c_path c_username c_password c_url].
+  repeat (apply Bool.andb_true_iff; split); assumption.
+Qed.
+
+Lemma apply_kv_inv c k v c' : clean v = true -> inv c = true -> apply_kv c k v = Ok c' -> inv c' = true.
+Proof.
+  intros Hv Hi. destruct (inv_parts c Hi) as (C1 & C2 & C3 & C4 & C5 & C6 & U1 & U2 & U3 & U4).
+  unfold apply_kv, set_string.
+  destruct (bytes_eqb k (bs "protocol") || bytes_eqb k (bs "host")
+            || bytes_eqb k (bs "username") || bytes_eqb k (bs "password")).
+  - destruct (utf8_valid v) eqn:Eu; [|discriminate].
+    destruct (bytes_eqb k (bs "protocol")); [|destruct (bytes_eqb k (bs "host")); [|destruct (bytes_eqb k (bs "username"))]];
+      intros H; inversion H; subst; apply inv_build; assumption.
+  - destruct (bytes_eqb k (bs "url")); [|destruct (bytes_eqb k (bs "path")); [|destruct (bytes_eqb k (bs "quit"))]];
+      intros H; inversion H; subst; try (apply inv_build; assumption). exact Hi.
+Qed.
+
+Lemma from_lines_inv ls : forall c c', inv c = true -> from_lines ls c = Ok c' -> inv c' = true.
+Proof.
+  induction ls as [|l r IH]; intros c c' Hi; cbn [from_lines].
+  - intros H. inversion H. subst. exact Hi.
+  - destruct (parse_line l) as [[k v]|e| |] eqn:Ep; try discriminate.
+    apply parse_line_validate, validate_value_clean in Ep.
+    destruct (apply_kv c k v) as [c1|e| |] eqn:Ea; try discriminate.
+    intros H. apply (IH c1 c'); [|exact H]. exact (apply_kv_inv c k v c1 Ep Hi Ea).
+Qed.
+
+Lemma inv_present_clean c : inv c = true -> forallb (fun p => clean (snd p)) (present c) = true.
+Proof.
+  intros Hi. destruct (inv_parts c Hi) as (C1 & C2 & C3 & C4 & C5 & C6 & _).
+  rewrite L_present_fields. rewrite !forallb_app.
+  destruct c as [p h pa u pw url q]. cbn [c_protocol c_host c_path c_username c_password c_url] in *.
+  destruct p, h, pa, u, pw, url; cbn [opt_pair forallb snd opt_clean] in *;
+    rewrite ?C1, ?C2, ?C3, ?C4, ?C5, ?C6; reflexivity.
+Qed.
+
+(* whatever from_bytes accepts can be written again, and reads back the same *)
+Lemma L_read_write_read input c : from_bytes input = Ok c ->
+  strings_utf8 c = true /\
+  write_to c = (encode (present c), Ok tt) /\
+  from_bytes (encode (present c)) = Ok (clear_quit c).
+Proof.
+  intros H. unfold from_bytes in H.
+  assert (Hi : inv c = true) by (exact (from_lines_inv _ ctx_default c eq_refl H)).
+  pose proof (inv_present_clean c Hi) as Hc.
+  assert (Hu : strings_utf8 c = true).
+  { unfold inv in Hi. apply Bool.andb_true_iff in Hi. tauto. }
+  assert (Hw : write_to c = (encode (present c), Ok tt)) by (apply L_write_ok_iff; auto).
+  repeat split; try assumption. exact (L_round_trip c _ Hu Hw).
+Qed.
+
+Lemma in_has_byte b v : In b v -> has_byte b v = true.
+Proof.
+  intros H. unfold has_byte. apply existsb_exists. exists b. split; [exact H | apply beqb_eq; reflexivity].
+Qed.
+
+Lemma L_refuses_in c k v : In (k, v) (present c) -> In NUL v \/ In LF v \/ In CR v ->
+  exists pre post, write_to c = (encode pre, Err Encoding) /\ present c = pre ++ post /\
+    forallb (fun p => clean (snd p)) pre = true /\ ~ In (k, v) pre.
+Proof.
+  intros Hin Hb. apply L_refuses; [exact Hin|]. unfold clean.
+  destruct Hb as [H|[H|H]]; apply in_has_byte in H; rewrite H; rewrite ?Bool.orb_true_r; reflexivity.
+Qed.
+
+Lemma L_line_count c out : write_to c = (out, Ok tt) ->
+  length (filter is_lf out) = length (present c) /\
+  length (filter is_cr_or_lf out) = length (present c) /\
+  split_on is_lf out = map line (present c) ++ [[]] /\
+  split_on is_cr_or_lf out = map line (present c) ++ [[]].
+Proof.
+  intros H. destruct (L_no_injection c out _ H) as (sent & post & E & Hp & _ & _ & Hs & Hf & _).
+  rewrite (Hp eq_refl), app_nil_r in E. subst sent.
+  repeat split.
+  - apply Hf, is_lf_ok.
+  - apply Hf, is_cr_or_lf_ok.
+  - apply Hs, is_lf_ok.
+  - apply Hs, is_cr_or_lf_ok.
+Qed.
